@@ -21,6 +21,14 @@ A hierarchy is a JSON model
      "mods":    [m, ...]             module number of each class (non-decreasing, so forward edges import earlier modules)
      "via":     [[form, ...], ...]   parallel to "bases": how the base is reached (see FORMS; ignored for externals)
      "resolve": bool                 load(..., resolve_aliases=resolve)
+     "history": {...}                optional, a history on one loader / modules collection (the answer must be the one
+                                     for the *final* tree, whatever was asked before):
+         {"type": "late", "split": s}     modules m0..m(s-1) form a second top-level package LIB that is loaded only
+                                          after PKG has been loaded and every PKG class has been queried
+         {"type": "replace", "target": j, "bases": [...], "members": [k0..k3]}
+                                          after everything was loaded and queried, class Cj is replaced in its module
+                                          (`module.set_member("Cj", new_class)`) by a new class with these bases
+                                          (indices < j) and members (codes 0-3); every class is queried again
     }
 
 kind "one": one module, bases among classes < i (plus externals), visited with griffe.visit.
@@ -52,6 +60,7 @@ KIND_NAME = {1: "function", 2: "attribute", 3: "class", 4: "attribute", 5: "func
 EXTERNALS = ("object", "Exception", "abc.ABC", "Unk0", "Unk1", "Ext0", "Generic[T]")
 NOTLOADED = "c07_notloaded"
 PKG = "c07pkg"
+LIB = "c07lib"
 
 # How a class of the package is reached from the class statement that lists it as a base
 # (for a class nested in a host the *host* is what is imported, the base is then `<host>.Cj`).
@@ -311,28 +320,59 @@ def render_one(case) -> str:
     return "\n".join(parts) + "\n"
 
 
+def pkg_of(case, m: int) -> str:
+    """Top-level package holding module m<m> (history "late": the first `split` modules live in LIB)."""
+    hist = case.get("history")
+    if hist and hist["type"] == "late" and m < hist["split"]:
+        return LIB
+    return PKG
+
+
+def packages(case) -> list[str]:
+    hist = case.get("history")
+    return [LIB, PKG] if hist and hist["type"] == "late" else [PKG]
+
+
 def class_path(case, i: int) -> str:
     h = hosts(case)[i]
     local = f"C{i}" if h is None else f"C{h}.C{i}"
     if case["kind"] == "pkg":
-        return f"{PKG}.m{case['mods'][i]}.{local}"
+        m = case["mods"][i]
+        return f"{pkg_of(case, m)}.m{m}.{local}"
     return f"m.{local}"
 
 
+def final_case(case):
+    """The model of the tree after the history has been played (only "replace" changes the hierarchy)."""
+    hist = case.get("history")
+    if not hist or hist["type"] != "replace":
+        return case
+    j = hist["target"]
+    out = dict(case)
+    out["bases"] = [list(hist["bases"]) if i == j else bs for i, bs in enumerate(case["bases"])]
+    out["members"] = [list(hist["members"]) if i == j else row for i, row in enumerate(case["members"])]
+    if case.get("init"):
+        out["init"] = [-1 if i == j else v for i, v in enumerate(case["init"])]
+    if case.get("via"):
+        out["via"] = [["d"] * len(hist["bases"]) if i == j else v for i, v in enumerate(case["via"])]
+    out["history"] = None
+    return out
+
+
 def render_pkg(case) -> dict[str, str]:
-    """Files (relative path -> text) of the package."""
+    """Files (relative path -> text) of the package(s)."""
     bases, mods, via = case["bases"], case["mods"], case["via"]
     host = hosts(case)
     nmods = max(mods) + 1
     body: dict[int, list[str]] = {m: [] for m in range(nmods)}
-    init_lines: list[tuple[int, str]] = []
+    init_lines: dict[str, list[tuple[int, str]]] = {p: [] for p in packages(case)}
     files: dict[str, str] = {}
     for m in range(nmods):
         mod_used = {b for i, bs in enumerate(bases) if mods[i] == m for b in bs if isinstance(b, str)}
         body[m].extend(external_prelude(mod_used))
 
     def base_exprs(i: int, imports: list[str]) -> list[str]:
-        m = mods[i]
+        here = pkg_of(case, mods[i])
         exprs = []
         for k, b in enumerate(bases[i]):
             if isinstance(b, str):
@@ -342,12 +382,13 @@ def render_pkg(case) -> dict[str, str]:
             hb = host[b]
             top = b if hb is None else hb  # the module-level class that is imported
             tail = "" if hb is None else f".C{b}"  # path from it to the base
-            src = f"{PKG}.m{mods[b]}"
+            there = pkg_of(case, mods[b])
+            src = f"{there}.m{mods[b]}"
             alias = f"A{i}_{k}"
             if form == "d":
                 # same module: a sibling (same host) is a bare name in the host's body, anything else is reached from module level
                 expr = f"C{b}" if (hb is None or hb == host[i]) else f"C{hb}.C{b}"
-            elif form == "f":
+            elif form == "f" or (form == "r" and there != here):
                 imports.append(f"from {src} import C{top} as {alias}")
                 expr = alias + tail
             elif form == "r":
@@ -360,19 +401,21 @@ def render_pkg(case) -> dict[str, str]:
                 imports.append(f"import {src} as M{i}_{k}")
                 expr = f"M{i}_{k}.C{top}{tail}"
             elif form == "p":
-                imports.append(f"from {PKG} import m{mods[b]} as M{i}_{k}")
+                imports.append(f"from {there} import m{mods[b]} as M{i}_{k}")
                 expr = f"M{i}_{k}.C{top}{tail}"
             elif form in HOPS:
+                # the re-export modules belong to the importing package
                 prev_mod, prev_name = src, f"C{top}"
                 for hop in range(1, HOPS[form] + 1):
                     name = f"R{hop}_{i}_{k}"
-                    files[f"{PKG}/r{hop}_{i}_{k}.py"] = f"from {prev_mod} import {prev_name} as {name}\n"
-                    prev_mod, prev_name = f"{PKG}.r{hop}_{i}_{k}", name
+                    files[f"{here}/r{hop}_{i}_{k}.py"] = f"from {prev_mod} import {prev_name} as {name}\n"
+                    prev_mod, prev_name = f"{here}.r{hop}_{i}_{k}", name
                 imports.append(f"from {prev_mod} import {prev_name} as {alias}")
                 expr = alias + tail
             elif form == "i":
-                init_lines.append((top, f"from {src} import C{top} as P{i}_{k}"))
-                imports.append(f"from {PKG} import P{i}_{k} as {alias}")
+                # re-exported by the __init__ of the package that defines the class
+                init_lines[there].append((top, f"from {src} import C{top} as P{i}_{k}"))
+                imports.append(f"from {there} import P{i}_{k} as {alias}")
                 expr = alias + tail
             elif form == "w":
                 imports.append(f"from {src} import *")
@@ -398,9 +441,10 @@ def render_pkg(case) -> dict[str, str]:
         body[mods[i]].append("\n".join(lines) + "\n")
     # package __init__: re-exports ordered by source class, so that CPython has executed every module a
     # later module needs before that later module is imported by a later line.
-    files[f"{PKG}/__init__.py"] = "\n".join(line for _, line in sorted(init_lines)) + "\n"
+    for p, lines_ in init_lines.items():
+        files[f"{p}/__init__.py"] = "\n".join(line for _, line in sorted(lines_)) + "\n"
     for m in range(nmods):
-        files[f"{PKG}/m{m}.py"] = "\n".join(body[m]) + "\n"
+        files[f"{pkg_of(case, m)}/m{m}.py"] = "\n".join(body[m]) + "\n"
     return files
 
 
